@@ -437,3 +437,5 @@ func IteBool(c, a, b bool) bool {
 func AdvanceClock(d int64) { time.Sleep(time.Duration(d)) }
 
 func ForkGoroutineOrder(on bool) {}
+
+func Rec(key string) string { return "" }
